@@ -14,6 +14,7 @@ Case kinds
 """
 import io
 import itertools
+import json
 import random
 
 import compat  # noqa: F401
@@ -222,8 +223,28 @@ def run_pack(case):
     vals = [v if m == 0 else outside(v, m) for v, m in zip(case["vs"], case["ssa"])]
     offs = [o if m == 0 else outside(o, 1) for o, m in zip(case["os"], case["ssa_off"])]
     ops = list(pack_bitlist(vals, offs, w))
+    ops2 = list(pack_bitlist(vals, offs, w))   # a second call with the same arguments (generator function, shared SSA values)
     last = None
+    index = {}   # result -> position in the emitted list
+    oplist = []
+
+    def ref(x):
+        x = SSAValue.get(x)
+        return ["op", index[x]] if x in index else ["ext", env[x][0]]
+
+    def shape(seq):
+        pos = {op_.results[0]: i_ for i_, op_ in enumerate(seq)}
+        return [(op_.name, [("op", pos[SSAValue.get(o_)]) if SSAValue.get(o_) in pos else ("ext", id(SSAValue.get(o_)))
+                            for o_ in op_.operands], getattr(getattr(op_, "value", None), "value", None)) for op_ in seq]
+    repeatable = shape(ops) == shape(ops2)
     for op in ops:
+        if isinstance(op, arith.ConstantOp):
+            oplist.append(["const", op.value.value.data & mask])
+        elif isinstance(op, (arith.ShLIOp, arith.OrIOp)):
+            if any(SSAValue.get(o_) not in index and SSAValue.get(o_) not in env for o_ in op.operands):
+                return {"poison": f"{op.name} uses a value that is not defined before it"}
+            oplist.append(["shl" if isinstance(op, arith.ShLIOp) else "or", ref(op.lhs), ref(op.rhs)])
+        index[op.results[0]] = len(oplist) - 1
         if isinstance(op, arith.ConstantOp):
             v = op.value.value.data & mask
             env[op.result] = (v, v, ("const", v))
@@ -241,9 +262,9 @@ def run_pack(case):
             return {"poison": f"ill-typed {op.name}: operand/result types are not all i{w}"}
         last = op
     if last is None:
-        return {"tree": None}
+        return {"tree": None, "ops": [], "repeatable": repeatable}
     r = env[last.results[0]]
-    return {"tree": r[2], "value": r[0], "valueW": r[1]}
+    return {"tree": r[2], "value": r[0], "valueW": r[1], "ops": oplist, "repeatable": repeatable}
 
 
 # ------------------------------------------------------------------------------------------------
@@ -444,6 +465,10 @@ def mutate(toks, mut):
         t.insert(i, "-")
     elif op == "comma":
         t.insert(i, ",")
+    elif op == "ident":
+        t[i] = ["id", "zz"]      # an unknown option / flag / keyword / enum value
+    elif op == "opt":
+        t[i] = ["id", "bm"] if isinstance(t[i], list) and t[i][0] == "id" else t[i]   # a known option name elsewhere
     return t
 
 
@@ -652,8 +677,9 @@ class C19(Prop):
     assumptions = [
         "affine expressions with symbols are outside the model (canonicalize_affine.py never creates or inspects them)",
         "Python recursion depth is not modelled: the model uses fuel 64 per expression; running out of fuel where Python answers is a disagreement",
-        "stride patterns: upper bounds are naturals; negative bounds are outside the model (canonicalize is not "
-        "idempotent on them, e.g. bounds [-1,-1] strides [s,-s])",
+        "stride patterns: the theorems are about natural upper bounds; negative bounds are modelled (stepZ) and compared "
+        "with the real code but outside the property's quantifier (canonicalize turns bounds [-1,-1] strides [s,-s] into "
+        "bound [1], and a second pass removes it)",
         "pack_bitlist: values/offsets are interpreted as dtype-bit unsigned words; shift amounts >= dtype (poison for "
         "arith.shli) are not generated",
         "AffineTransform: numpy int64 overflow is not modelled (the model is over unbounded Int)",
@@ -703,6 +729,12 @@ class C19(Prop):
             ub, ts, ss = gen_sp(rng)
             if rng.random() < 0.02 and ub:
                 ts = ts[:-1]  # verify must refuse
+            if rng.random() < 0.06 and ub:   # negative bounds: outside the property, inside the model
+                i_ = rng.randrange(len(ub))
+                ub = ub[:i_] + [rng.choice([-1, -1, -2, -3])] + ub[i_ + 1:]
+                if rng.random() < 0.5 and i_ + 1 < min(len(ub), len(ts)):
+                    ub[i_ + 1] = rng.choice([-1, -2])
+                    ts[i_ + 1] = ub[i_] * ts[i_]
             yield {"kind": "sp_canon", "ub": ub, "ts": ts, "ss": ss}
         for _ in range(300 if quick else 8000):
             yield gen_pack(rng)
@@ -740,7 +772,7 @@ class C19(Prop):
             yield gen_ap(rng)
         for _ in range(400 if quick else 10000):
             yield gen_ap_coll(rng)
-        muts = ["del", "dup", "swap", "minus", "comma"]
+        muts = ["del", "dup", "swap", "minus", "comma", "ident", "opt"]
         for _ in range(250 if quick else 6000):
             n1 = rng.choice([0, 1, 2, 3, 5])
             ub = [rng.choice([0, 1, 2, 3, 16, -1, 1024]) for _ in range(n1)]
@@ -753,7 +785,35 @@ class C19(Prop):
             yield {"kind": "cfg_syntax", "cfg": gen_cfg(rng), "mut": mut}
 
     # -- real code ------------------------------------------------------------------------------
+    # -- results must not depend on what the process computed before (state kept across calls) ---------------
+    _neighbours = None
+
+    def neighbours(self, kind):
+        """two fixed other cases of the same kind, run between the two evaluations of a case"""
+        if C19._neighbours is None:
+            nb = {}
+            for c in self.cases(random.Random(424242), "quick"):
+                if len(nb.setdefault(c["kind"], [])) < 2 and not c.get("mut"):
+                    nb[c["kind"]].append(c)
+            C19._neighbours = nb
+        return C19._neighbours.get(kind, [])
+
     def impl(self, case):
+        out = self._impl1(case)
+        if isinstance(out, dict) and case["kind"] != "opt_table":
+            for c2 in self.neighbours(case["kind"]):
+                try:
+                    self._impl1(c2)
+                except Exception:
+                    pass
+            try:
+                out2 = self._impl1(case)
+            except Exception as e:  # noqa: BLE001
+                out2 = {"raised": type(e).__name__}
+            out = dict(out, stable=json.dumps(out2, sort_keys=True, default=str) == json.dumps(out, sort_keys=True, default=str))
+        return out
+
+    def _impl1(self, case):
         k = case["kind"]
         if k == "affine_canon":
             from snaxc.util.canonicalize_affine import canonicalize_expr
@@ -767,7 +827,8 @@ class C19(Prop):
             assert m.num_dims == case["ndims"] and m.num_symbols == 0
             return {"results": [of_x(r) for r in m.results]}
         if k == "at_eq":
-            return {"ok": bool(mk_T(case["s"]) == mk_T(case["o"]))}
+            other = bool(mk_T(case["s"]) == 5) or bool(mk_T(case["s"]) == case["s"]["A"])   # not an AffineTransform
+            return {"ok": bool(mk_T(case["s"]) == mk_T(case["o"])), "eq_other_type": other}
         if k == "at_evalnd":
             import numpy as np
             t = mk_T(case["t"])
@@ -860,7 +921,11 @@ class C19(Prop):
             again = [ap_json(q) for q in coll.canonicalize()]          # a second call on the same object
             fresh = {"schedule": apm.Schedule, "template": apm.Template}[case["cls"]](list(reversed(pats)))
             rev = [ap_json(q) for q in fresh.canonicalize()]            # member order must not matter
+            copy_ = {"schedule": apm.Schedule, "template": apm.Template}[case["cls"]](
+                [mk_ap(case["cls"], q["bounds"], q["t"]) for q in case["patterns"]])
             return {"coll_cls": type(res).__name__, "canon": canon, "inner": inner,
+                    "eq_copy": bool(coll == copy_) and bool(copy_ == coll), "eq_canon": bool(coll == res),
+                    "eq_other": bool(coll == 5) or bool(coll == fresh and len(pats) > 1 and before != list(reversed(before))),
                     "orig_unchanged": [ap_json(q) for q in coll] == before and [ap_json(q) for q in pats] == before,
                     "repeatable": again == canon, "order_independent": list(reversed(rev)) == canon}
         if k == "opt_table":
@@ -884,10 +949,18 @@ class C19(Prop):
         if k == "at_postinit":
             return [{"fn": "c19.at_postinit", "args": {"a_shape": case["a_shape"], "b_shape": case["b_shape"]}}]
         if k == "sp_canon":
-            return [{"fn": "c19.sp_canon", "args": {"ub": case["ub"], "ts": case["ts"], "ss": case["ss"]}}]
+            args = {"ub": case["ub"], "ts": case["ts"], "ss": case["ss"]}
+            reqs = [{"fn": "c19.sp_canon_z", "args": args}]          # the loop on integer bounds
+            if all(b >= 0 for b in case["ub"]):
+                reqs.append({"fn": "c19.sp_canon", "args": args})    # the natural-bound model the theorems are about
+            return reqs
         if k == "pack":
             mask = (1 << case["w"]) - 1
-            return [{"fn": "c19.pack", "args": {"vs": [v & mask for v in case["vs"]], "os": case["os"], "w": case["w"]}}]
+            def src(v, m):
+                return ["lit" if m == 0 else "ext", v & mask]
+            return [{"fn": "c19.pack", "args": {"vs": [v & mask for v in case["vs"]], "os": case["os"], "w": case["w"]}},
+                    {"fn": "c19.pack_ops", "args": {"vs": [src(v, m) for v, m in zip(case["vs"], case["ssa"])],
+                                                    "os": [src(o, m) for o, m in zip(case["os"], case["ssa_off"])]}}]
         if k == "at_tomap":
             return [{"fn": "c19.at_tomap", "args": case["t"]}]
         if k == "at_frommap":
@@ -897,7 +970,7 @@ class C19(Prop):
                                                             "xs": points(case["seed"], case["o"]["nd"])}}]
         if k == "sp_syntax":
             return [{"fn": "c19.sp_syntax", "args": {"ub": case["ub"], "ts": case["ts"], "ss": case["ss"],
-                                                     "mut": case["mut"]}}]
+                                                     "mut": case["mut"], "fixed": "DC19c" in FIXED}}]
         if k == "cfg_syntax":
             return [{"fn": "c19.cfg_syntax", "args": {"cfg": case["cfg"], "mut": case["mut"], "fixed": "D16" in FIXED}}]
         if k == "ap":
@@ -914,6 +987,12 @@ class C19(Prop):
         return []
 
     def model(self, case, answers):
+        out = self._model1(case, answers)
+        if isinstance(out, dict) and case["kind"] != "opt_table" and not ({"raised", "model_error", "out_of_fuel"} & set(out)):
+            out = dict(out, stable=True)
+        return out
+
+    def _model1(self, case, answers):
         k = case["kind"]
         if k == "ap_coll":
             for a_ in answers:
@@ -927,6 +1006,8 @@ class C19(Prop):
                 inner = {"raised": "ValueError"}
             return {"coll_cls": {"schedule": "Schedule", "template": "Template"}[case["cls"]],
                     "canon": [o_["canon"] for o_ in oks], "inner": inner,
+                    "eq_copy": True, "eq_other": False,
+                    "eq_canon": all(o_["canon"] == o_["built"] for o_ in oks),
                     "orig_unchanged": True, "repeatable": True, "order_independent": True}
         a = answers[0]
         if "err" in a:
@@ -938,20 +1019,34 @@ class C19(Prop):
             return {"canon": a}
         if k == "affine_canon_map":
             return {"out_of_fuel": True} if a is None else {"results": a}
-        if k in ("at_eq", "at_evalnd", "at_postinit"):
+        if k == "at_eq":
+            return dict(a, eq_other_type=False) if "ok" in a else a
+        if k in ("at_evalnd", "at_postinit"):
             return a
         if k == "sp_canon":
+            if len(answers) > 1:
+                n_ = answers[1]
+                if "err" in n_ or n_["ok"] != a:
+                    return {"model_error": f"natural-bound and integer-bound models differ (contradicts spCanonZ_agrees): {n_}"}
             if not a["verify"]:
                 return {"raised": "VerifyException"}
             return {"canon": a["canon"], "addrs": a["addrs"]}
         if k == "pack":
             if "raised" in a:
                 return {"raised": a["raised"]}
+            b_ = answers[1]
+            if "err" in b_:
+                return {"model_error": b_["err"]}
+            b_ = b_["ok"]
+            if "raised" in b_:
+                return {"model_error": "op-list model raises where the tree model does not"}
             if a["tree"] is None:
-                return {"tree": None}
+                return {"tree": None, "ops": b_["ops"], "repeatable": True}
             if a["value"] != a["spec"]:
                 return {"model_error": "tree value differs from spec (contradicts pack_eq_fold)"}
-            return {"tree": a["tree"], "value": a["value"], "valueW": a["valueW"]}
+            if not b_["vals"] or b_["vals"][-1] != a["spec"]:
+                return {"model_error": "last value of the op list differs from spec (contradicts pack_ops_exec)"}
+            return {"tree": a["tree"], "value": a["value"], "valueW": a["valueW"], "ops": b_["ops"], "repeatable": True}
         if k == "at_tomap":
             return {"results": a}
         if k == "at_frommap":
@@ -989,6 +1084,9 @@ class C19(Prop):
         def bad(what, finding=None):
             out.append({"what": what, "finding": finding})
 
+        if isinstance(impl_out, dict) and impl_out.get("stable") is False:
+            bad("the result for this input changes when other inputs of the same kind are processed in between "
+                "(state kept across calls)")
         if k == "affine_canon":
             if "raised" in impl_out:
                 return [{"what": f"canonicalize_expr raised {impl_out['raised']}: {impl_out.get('msg')}", "finding": None}]
@@ -1027,6 +1125,8 @@ class C19(Prop):
                 if canonicalize_expr(r) != r:
                     bad(f"canonicalize_map not idempotent on {r}")
         elif k == "at_eq":
+            if impl_out.get("eq_other_type"):
+                bad("AffineTransform compares equal to an object that is not an AffineTransform")
             s_, o = case["s"], case["o"]
             same_shape = s_["nd"] == o["nd"] and len(s_["b"]) == len(o["b"])
             want = s_ == o
@@ -1068,6 +1168,8 @@ class C19(Prop):
                 bad("spatial strides changed")
             if len(c["ub"]) != len(c["ts"]):
                 bad("canonical pattern has unequal list lengths")
+            elif any(b < 0 for b in case["ub"]):
+                return out   # a negative trip count is outside the property's quantifier (modelled and compared, not claimed)
             elif seq_of(c["ub"], c["ts"]) != seq_of(case["ub"], case["ts"]):
                 bad(f"canonical pattern ub={c['ub']} ts={c['ts']} has a different address sequence")
             c2 = sp_json(StridePattern(c["ub"], c["ts"], c["ss"]).canonicalize())
@@ -1084,6 +1186,8 @@ class C19(Prop):
             if "poison" in impl_out:
                 bad("emitted " + impl_out["poison"] + " (all offsets were below the word size)")
                 return out
+            if not impl_out.get("repeatable", True):
+                bad("a second pack_bitlist call with the same arguments emits a different operation list")
             if impl_out["tree"] is None:
                 if case["vs"]:
                     bad("no operation emitted for a non-empty list")
@@ -1167,6 +1271,12 @@ class C19(Prop):
                 return out
             if case["mut"] is None and impl_out["parsed"] != {"ub": case["ub"], "ts": case["ts"], "ss": case["ss"]}:
                 bad(f"stride pattern parses back as {impl_out['parsed']}")
+            if case["mut"] is not None and impl_out["parsed"] != "error":
+                keys = [t_[1] for t_ in mutate(impl_out["toks"], case["mut"])
+                        if isinstance(t_, list) and t_[0] == "id" and t_[1] not in ("true", "false")]
+                if keys[:3] != ["ub", "ts", "ss"]:
+                    bad(f"the parser accepts a stride pattern whose keys are spelled {keys[:3]} and assigns the arrays by "
+                        f"position: {impl_out['parsed']}", "DC19c")
         elif k == "cfg_syntax":
             if "raised" in impl_out:
                 if case["cfg"]["streamers"]:
@@ -1219,6 +1329,12 @@ class C19(Prop):
                 return out
             if not impl_out["orig_unchanged"]:
                 bad("canonicalize / inner_dims modified the collection it was called on")
+            if not impl_out["eq_copy"]:
+                bad("a collection does not compare equal to a collection of equal patterns")
+            if impl_out["eq_other"]:
+                bad("a collection compares equal to a non-collection or to its reversal")
+            if impl_out["eq_canon"] != (impl_out["canon"] == [{"cls": case["cls"], "bounds": q["bounds"], "t": q["t"]} for q in pats]):
+                bad("collection == canonical collection disagrees with member-wise structural equality")
             if not impl_out["repeatable"]:
                 bad("a second canonicalize() on the same collection gives a different result")
             if not impl_out["order_independent"]:
